@@ -46,6 +46,13 @@ func init() {
 		}
 		return RunWriter(&p), nil
 	})
+	Register("share", func(line []byte) ([]Ev, error) {
+		var p WProg
+		if err := json.Unmarshal(line, &p); err != nil {
+			return nil, err
+		}
+		return RunShare(&p), nil
+	})
 }
 
 // Run executes one program of the given family.
